@@ -23,6 +23,7 @@ struct Tok {
 	std::string vt;   // value type for v tokens: int float bool str any ; for n tokens: "kv" when in a free-form section
 	int depth = 0;    // section nesting depth at which the token occurs
 	bool lastv = false;
+	bool kv = false;  // the token lies inside a free-form (key = value) section
 };
 
 struct Chunk {
@@ -47,6 +48,7 @@ struct SchemaGen {
 	bool keystrval = false;  // free-form sections
 	bool nodefault = true;
 	bool title_sections = true;
+	bool single_title = true;    // sections with CFGF_TITLE but without CFGF_MULTI
 	bool printable_only = false; // only kinds cfg_print can write back (C05)
 	bool string_defaults_hostile = false;
 };
